@@ -284,6 +284,9 @@ CORPUS_SCRIPTS = [
     ["go depth 1"],
     ["print"],
     [],
+    ["isready", "position fen 7k/5Q2/6K1/8/8/8/8/8 b - - 0 1", "go depth 2", "go nodes 10", "isready", "quit"],       # stalemate: bestmove 0000
+    ["isready", "position fen 6rk/5Npp/8/8/8/8/8/6K1 b - - 0 1", "go depth 2", "isready", "quit"],                     # checkmated root
+    ["setoption name Hash value", "setoption name", "setoption", "isready", "setoption name Hash value", "setoption name UCI_Chess960 value", "isready", "quit"],
     ["quit"],
     ["setoption name Hash value 2", "setoption name UCI_Chess960 value true", "isready", "ucinewgame", "go depth 2", "go", "go foo 1", "go depth", "stop", ""],
 ]
@@ -320,6 +323,16 @@ def run_corpus(res):
                          expected=(nready, nbest))
         if all(not re.search(r"movetime|wtime", l) for l in sc):
             process_compare_one(res, sc)
+    # the first-line dispatch of main.rs (not part of the UCI model): must exit cleanly whatever the first line is
+    for first in ("quit\n", "about\n", "foo\n", "\n", "", "uci"):
+        for b in ("release", "checked"):
+            try:
+                p = subprocess.run([vlib.BIN[b]], input=first, stdout=subprocess.PIPE, stderr=subprocess.PIPE, text=True, timeout=20)
+                res.case("first-line|" + b + "|" + repr(first), True)
+                if p.returncode != 0 or "panicked" in p.stderr:
+                    res.fail("engine crashed", script=[first], build=b, exit_status=p.returncode, stderr=p.stderr[-300:])
+            except subprocess.TimeoutExpired:
+                res.fail("engine hung (no exit within 30 s)", script=[first], build=b)
     res.count("corpus_scripts", len(CORPUS_SCRIPTS))
 
 
